@@ -131,6 +131,9 @@ def gen_cases(tier, seed):
             cs.append({'kind': 'struct', 'base': {'src': 'repo', 'idx': i}, 'k': i})
     for i, t in enumerate(SHAPES):
         cs.append({'kind': 'tagged', 'base': {'src': 'text', 'text': t, 'seed': i}, 'k': i, 'all': True})
+    from .common import shape_cases
+    for i, b_ in enumerate(shape_cases(40 if tier == 'quick' else None, seed)):
+        cs.append({'kind': 'struct', 'base': b_, 'k': i})
     nf = 40 if tier == 'quick' else 400
     for i in range(nf):
         cs.append({'kind': 'trapline', 'seed': seed * 7 + i})
